@@ -3,6 +3,7 @@ import Gbo.Proofs.Divide
 import Gbo.Proofs.Links
 import Gbo.Proofs.SweepInv
 import Gbo.Proofs.SweepKeeps
+import Gbo.Proofs.Once
 /-
   C13 — the sweep yields a planar subdivision.  Proved here, for ALL inputs: the queue-filling clause
   (`fill_queue` creates exactly one mutually linked pair per non-degenerate input edge, the left event
@@ -146,5 +147,24 @@ theorem C13_subdivide_pair_flags (ar : Arith) (cfg : Cfg) (a b : MPoly) (op : Op
     (h : subdivide ar cfg (fillQueue a b op).fq sb cb op = .ok sw) :
     LinkedFlags sw.arena ∧ Keeps (fillQueue a b op).fq.arena sw.arena :=
   ⟨subdivide_linkedFlags ar cfg _ sb cb op sw h (C13_fillQueue a b op).1, subdivide_keeps ar cfg _ sb cb op sw h⟩
+
+/-- `fill_queue` queues every event it creates exactly once (and nothing else) -/
+theorem C13_fillQueue_queues_each_event_once (a b : MPoly) (op : Op) :
+    ∀ v, (fillQueue a b op).fq.heap.count v = if v < (fillQueue a b op).fq.arena.size then 1 else 0 :=
+  fillQueue_once a b op
+
+/-- **Whole sweep, every input, every arithmetic: every event is handled at most once, and exactly once when
+    the sweep is not cut short.**  Whenever `subdivide` returns, `sorted_events` holds indices of the returned
+    arena only and holds none of them twice (conservation: at every moment each event of the arena — the
+    operands' and those `divide_segment` appended — is either still queued or already recorded, once in
+    total); for union and xor, which have no early exit, the loop ends only with an empty queue and
+    `sorted_events` is a rearrangement of *all* events of the arena. -/
+theorem C13_events_processed_once (ar : Arith) (cfg : Cfg) (a b : MPoly) (op : Op) (sb cb : BBox) (sw : SweepOut)
+    (h : subdivide ar cfg (fillQueue a b op).fq sb cb op = .ok sw) :
+    sw.sorted.toList.Nodup ∧ (∀ x, x ∈ sw.sorted.toList → x < sw.arena.size) ∧
+    ((op = .union ∨ op = .xor) → sw.sorted.toList.Perm (List.range sw.arena.size)) :=
+  ⟨subdivide_sorted_nodup ar cfg _ sb cb op sw h (fillQueue_once a b op),
+   subdivide_sorted_valid ar cfg _ sb cb op sw h (fillQueue_valid a b op),
+   fun hop => subdivide_sorted_perm ar cfg _ sb cb op sw hop h (fillQueue_once a b op)⟩
 
 end Gbo.Props
